@@ -98,7 +98,7 @@ impl W {
 
 fn module_name(imp: &ImportSpec) -> String {
     let dots = ".".repeat(imp.level as usize);
-    format!("{}fx{}", dots, imp.module)
+    format!("{}{}", dots, helper_mod(imp.module))
 }
 
 pub fn tag_type(tag: u32) -> String {
@@ -392,7 +392,7 @@ pub fn render(file: &FileSpec) -> Rendered {
         for g in groups {
             let line = w.cur();
             let members: Vec<&&ImportSpec> = plugins.iter().filter(|p| p.level == g).collect();
-            let mods: Vec<String> = members.iter().map(|p| format!("\"fx{}\"", p.module)).collect();
+            let mods: Vec<String> = members.iter().map(|p| format!("\"{}\"", helper_mod(p.module))).collect();
             if mods.len() == 1 {
                 match members[0].module % 3 {
                     0 => w.push(format!("pytest_plugins = [{}]", mods[0])),
